@@ -127,7 +127,9 @@ fn gen_client(rng: &mut Rng) -> ClientCfg {
         contexts,
         max_pdu: gen_max(rng),
         strict: rng.chance(2, 3),
-        calling: rng.pick(&["THIS-SCU", "SCU2", "A"]).to_string(),
+        // a per-case nonce in the calling AE title: a request that reaches this case's acceptor from
+        // any other connection (a late connect of another case to a reused port) is recognisable
+        calling: format!("{}-{:04x}", rng.pick(&["THIS-SCU", "SCU2", "A"]), rng.next_u32() & 0xFFFF),
         called: match rng.below(4) {
             0 => None,
             1 => Some("OTHER-SCP".to_string()),
@@ -188,6 +190,8 @@ struct AssocWire {
     contexts: Vec<(u8, String, Vec<String>, u8)>,
     max_len: Option<u32>,
     malformed: Option<&'static str>,
+    /// calling AE title field (trimmed)
+    calling: String,
 }
 
 fn parse_assoc_body(b: &[u8], is_ac: bool) -> AssocWire {
@@ -196,6 +200,7 @@ fn parse_assoc_body(b: &[u8], is_ac: bool) -> AssocWire {
         out.malformed = Some("fixed part shorter than 68 bytes");
         return out;
     }
+    out.calling = String::from_utf8_lossy(&b[20..36]).trim_matches([' ', '\0']).to_string();
     let mut p = 68usize;
     while p + 4 <= b.len() {
         let it = b[p];
@@ -907,7 +912,12 @@ fn scenario(l: &mut Local, rng: &mut Rng, cfg: &Cfg, idx: u64) {
     }
 
     // (1) request: distinct odd context ids, one per configured context, announced maximum = configured
-    if let Some((rqw, _)) = &rq {
+    let foreign = rq.as_ref().map(|(rqw, _)| rqw.malformed.is_none() && rqw.calling != c.calling).unwrap_or(false);
+    if foreign {
+        inconclusive.push("the request seen by the proxy does not carry this case's calling AE title (foreign connection)".into());
+        l.count("foreign_connections", 1);
+    }
+    if let Some((rqw, _)) = rq.as_ref().filter(|_| !foreign) {
         l.count("requests_seen_on_wire", 1);
         if let Some(m) = rqw.malformed {
             viol.push(("rq|malformed".into(), format!("A-ASSOCIATE-RQ on the wire is malformed: {}", m)));
@@ -1184,7 +1194,7 @@ fn scenario(l: &mut Local, rng: &mut Rng, cfg: &Cfg, idx: u64) {
         l.count("inconclusive_scenarios", 1);
         l.note(format!("inconclusive scenario: {}", inconclusive[0]));
         // definitive wire observations are still reported
-        viol.retain(|(k, _)| k.starts_with("rq|") || k.contains("pdu-on-wire-exceeds"));
+        viol.retain(|(k, _)| !foreign && (k.starts_with("rq|") || k.contains("pdu-on-wire-exceeds")));
     }
     let mut rp = replay.clone();
     rp["establish"] = json!(est_class);
